@@ -27,6 +27,13 @@ def add_refdef(rep, prop):
     import contracts.refdef as RD
 
     deductive(rep, prop, RD.FUNCS, "contracts.refdef", select=(lambda q, ob, rel: True) if prop == "C01" else None)
+    if prop in ("C01", "C02", "C03", "C07"):
+        import contracts.tablec as TB
+        import contracts.tablesplit as TS
+
+        deductive(rep, prop, TB.FUNCS, "contracts.tablec", select=(lambda q, ob, rel: True) if prop == "C01" else None)
+        if prop == "C01":
+            deductive(rep, prop, TS.FUNCS, "contracts.tablesplit", select=lambda q, ob, rel: True)
 
 
 def run(tier, seed):
